@@ -49,7 +49,13 @@ class AsmExpr:
                     else:
                         rights = TERMS_Q
                     for rt in rights:
-                        out.append({"id": "%s/%s%s%s" % (pos, lt, op, rt), "pos": pos, "left": lt, "op": op, "right": rt})
+                        l2 = lt
+                        if op in "*/" and rt.startswith("label") and lt.startswith("num"):
+                            l2 = "num:small"        # keep products / quotients linear: one side enumerated
+                        cid = "%s/%s%s%s" % (pos, l2, op, rt)
+                        if any(c["id"] == cid for c in out[-12:]):
+                            continue
+                        out.append({"id": cid, "pos": pos, "left": l2, "op": op, "right": rt})
         if tier == "quick":
             # a fixed quarter of the cells (every position x operator keeps all term kinds on some side)
             keep = []
